@@ -53,7 +53,10 @@ str_t *vpx__ZNSt6vectorIN2ST6stringESaIS1_EE12emplace_backIJRPKclRNS0_16utf_vali
 int vp_harness_main(void) {
   str_t s; uint8_t sh[SMAX + 1]; S_mk_n(&s.f0, sh, -1, NS);
   uint32_t ci = vp_in_u32(); ASSUME(ci <= 1);
-  uint8_t sp[4]; for (int i = 0; i < 3; i++) sp[i] = vp_in_u8();
+#ifdef CI
+  ASSUME(ci == CI);      /* case mode fixed by the query (the longer subject/separator combinations are decided per mode) */
+#endif
+  uint8_t sp[NM > 3 ? NM + 1 : 4]; for (int i = 0; i < 3; i++) sp[i] = vp_in_u8();
 #if OP == 5
   { str_t from, to, out; uint8_t tf[SMAX + 1], tt[SMAX + 1];
     S_mk_n(&from.f0, tf, 0, NM); S_mk_n(&to.f0, tt, 0, NT);
@@ -119,7 +122,7 @@ int vp_harness_main(void) {
 #else
   { uint64_t i = 0, b = 0, cuts = 0;
     for (int g = 0; g < NS + 1; g++) { if (i >= NS || m == 0 || cuts >= max) break;
-      int hit = i + m <= NS; for (uint64_t j = 0; j < 2; j++) if (j < m && hit && !ceq(sh[i + j], sp[j], ci)) hit = 0;
+      int hit = i + m <= NS; for (uint64_t j = 0; j < (NM > 2 ? NM : 2); j++) if (j < m && hit && !ceq(sh[i + j], sp[j], ci)) hit = 0;
       if (hit) { st[np] = b; en[np] = i; np++; i += m; b = i; cuts++; } else i++; }
     st[np] = b; en[np] = NS; np++; }
   ASSERT(max == ~(uint64_t)0 || np <= max + 1, "at most max+1 pieces (reference self-check)");
